@@ -68,10 +68,10 @@ Theorem total_month_shape s : UserShape s ->
 Proof.
   intros U. pose proof U as (c0 & y0 & m0 & V0 & Hy0 & E0). destruct (user_shape_form s U) as (c & y & m & V & Hy & Ex & -> & W). unfold Total.
   split; [eexists; reflexivity|]. split; [eexists; reflexivity|]. split; [eexists; reflexivity|].
-  split; [eexists; apply len_ok; exact W|]. split; [eexists; reflexivity|]. split; [eexists; reflexivity|].
+  split; [eexists; apply len_ok; exact W|]. split; [eexists; apply first_day_ok; try exact W|]. split; [eexists; apply last_day_ok; try exact W|].
   split; [eexists; apply Shape.gap_ok; exact W|]. split; [eexists; reflexivity|].
   split; [unfold MonthShape_days, Days_new; rewrite len_ok by exact W; cbn [bind]; eexists; reflexivity|].
-  split; [intros d Hd; eexists; reflexivity|]. split; [intros d Hd; eexists; apply day_ordinal_ok; assumption|].
+  split; [intros d Hd; eexists; apply contains_ok; try exact W|]. split; [intros d Hd; eexists; apply day_ordinal_ok; assumption|].
   split; [intros k Hk; eexists; apply nth_day_ok; assumption|].
   intros k Hk. destruct (canonical_nth_date c0 y0 m0 k V0 Hy0 Hk _ E0) as (r & Er & _). exists r. exact Er.
 Qed.
